@@ -47,6 +47,9 @@ def run(ctx, prop):
         dropped = [o for o in sc.obs if o[0] == "C14.R1.result-consumed" and not o[2] and "dropped_result" in o[1]]
         ctx.ob("C14.positive-control.partial-io", "controls/pos", "controls/pos/src/lib.rs", bool(partial), "positive-control",
                "the no-partial-io rule fires on Read::read / Write::write in the control crate: %s" % bool(partial), nontrivial=False)
+        unfl = [o for o in sc.obs if o[0] == "C14.R2.buffered-writer-flushed" and not o[2]]
+        ctx.ob("C14.positive-control.unflushed-bufwriter", "controls/pos", "controls/pos/src/lib.rs", bool(unfl), "positive-control",
+               "the buffered-writer rule fires on the BufWriter dropped without flush in the control crate: %s" % bool(unfl), nontrivial=False)
         ctx.ob("C14.positive-control.dropped-result", "controls/pos", "controls/pos/src/lib.rs", bool(dropped), "positive-control",
                "the result-consumed rule fires on `let _ = w.write_all(..)` in the control crate: %s" % bool(dropped), nontrivial=False)
     elif prop == "C07":
